@@ -162,6 +162,9 @@ func setDesc(vals []int) string {
 }
 
 func checkC18(c *Ctx, r *Report) {
+	if c.checkTagSemantics(r, c.roles(r), "C18.name-values") {
+		r.Decide([]string{"C18.alphabet:", "C18.length:", "C18.coverage:", "C18.segments:", "C18.register:", "C18.anchor:"}, nil, "tag names evaluated through RegisterTag over the listed domain")
+	}
 	r.Explanation = "decided: the per-byte test of the tag validator accepts exactly [a-z0-9_] (value-set analysis over all 256 byte values); the length guard accepts exactly 3..36 (all order types of len against the compared constants); the segment test is Split(TrimPrefix(tag,\"_\"),\"_\") with 1..4 segments and no empty segment (recognised family; anything else is undecided); RegisterTag stores into the registry only after the not-initialised guard and the validator's true edge, only on the miss branch, and is the only writer; GetAllTags returns the registry's keys; BuildTag concatenates with \"_\" and the three helpers pass app/biz/rpc. Not decided: equivalence of segment tests outside the recognised family."
 	r.Undecidedcl = []string{"segment rule written outside the recognised Split/TrimPrefix family"}
 	r.Assumptions = []string{"strings.Split/TrimPrefix and slices.Contains contracts"}
